@@ -130,6 +130,14 @@ def g_actions(rng, sc_, depth, budget):
             ops.append(["stmt", ["call", ["a"], "<builtin>array", [C(N)], []]])
             ops.append(["stmt", ["assign", "a", V("i"), ["+", [g_scal(rng, sc_, 1), V("i")]], [["i", C(0), C(N)]]]])
             sc_.arr.append("a") if "a" not in sc_.arr else None
+        elif r < 0.74:
+            # a PERSISTENT array re-created with a size that differs between occurrences (phases, branches, run
+            # calls), filled completely, then used as a whole (len, norm_2): storage kept from a larger incarnation shows
+            n_w = rng.choice([2, 3, N, N + 1])
+            ops.append(["stmt", ["call", ["<p>w"], "<builtin>array", [C(n_w)], []]])
+            ops.append(["stmt", ["assign", "<p>w", V("i"), ["+", [g_scal(rng, sc_, 1), V("i")]], [["i", C(0), C(n_w)]]]])
+            whole = ["call", rng.choice(["<builtin>len", "<builtin>norm_2"] if not EXACT[0] else ["<builtin>len"]), [V("<p>w")], []]
+            ops.append(["stmt", ["assign", "<p>k", None, ["+", [V("<p>k"), whole]], []]])
         elif r < 0.78:
             ops.append(["stmt", ["yield", V("<state>y"), V("<t>"), "final", "y"]])
         elif r < 0.8 and depth > 0:
@@ -208,7 +216,7 @@ def make_generator(module_name="meth", **kw):
     from dagrt.function_registry import base_function_registry, register_ode_rhs
     freg = register_ode_rhs(base_function_registry, "y", identifier="<func>rhs", input_names=("y",))
     freg = freg.register_codegen("<func>rhs", "fortran", f.CallCode("""
-        ${result} = -2*${y}
+        ${result} = -2*${y} + ${t}
         """))
     return f.CodeGenerator(module_name, function_registry=freg,
                            user_type_map={"y": f.ArrayType((N,), f.BuiltinType("real*8"))},
@@ -243,6 +251,8 @@ def fortran_driver(text, m, module_name="meth"):
             init.append(f"p_k={float(m['k0'])!r}d0")
         elif a == "state_y":
             init.append("state_y=y0")
+        elif a == "p_w":
+            pass            # optional: the persistent array is created by the method itself
         else:
             raise ValueError("unexpected initialize argument " + a)
     prints = ["write(*,'(A,I6)') 'next ', dagrt_state%dagrt_next_phase"]
@@ -338,7 +348,7 @@ def run_interpreter(m):
     import numpy as np
     from dagrt.exec_numpy import FailStepException, NumpyInterpreter, TransitionEvent
     code = build_code(m)
-    interp = NumpyInterpreter(code, {"<func>rhs": lambda t, y: -2 * y})
+    interp = NumpyInterpreter(code, {"<func>rhs": lambda t, y: -2 * y + t})
     interp.set_up(t_start=float(m["t0"]), dt_start=float(m["dt"]), context={"y": np.array([float(v) for v in m["y0"]])})
     interp.context["<p>k"] = float(m["k0"])
     phase_ids = {name: k for k, name in enumerate(sorted(code.phases))}
